@@ -34,12 +34,19 @@ class SourceModule(Object):
     def scope(self):
         # type: () -> SourceScope
         source = Source(open(self.filename).read(), self.filename)
-        scope = extract_scope(source, self.project)
+        self._loading = True
+        try:
+            scope = extract_scope(source, self.project)
+        finally:
+            self._loading = False
         return scope
 
     @property
     def _attrs(self):
         # type: () -> dict[str, Object | Name]
+        if getattr(self, '_loading', False):
+            # import cycle: this module is being analysed right now
+            return {}
         return self.scope.exported_names  # type: ignore[return-value]
 
 
